@@ -220,6 +220,43 @@ def D6(m, R):
                                 ok_wrap = False
                         if ok_wrap:
                             facts.append((norm(c_.args[0]), hs[1], n.targets[0].id, sign, n))
+    # the count taken as the position of the first character that is not stripped: next((n for n, c in enumerate(SEQ) if c not in SET), len(SEQ))
+    from ..shapes import local_aliases as _la_s, canon as _cn_s
+    al_s = _la_s(f)
+    for n in f.walk():
+        if isinstance(n, ast.Assign) and isinstance(n.targets[0], ast.Name):
+            for c_ in ast.walk(n.value):
+                if not (isinstance(c_, ast.Call) and call_name(c_) == 'next' and len(c_.args) == 2 and isinstance(c_.args[0], ast.GeneratorExp)):
+                    continue
+                ge = c_.args[0]
+                if len(ge.generators) != 1:
+                    continue
+                g0 = ge.generators[0]
+                if not (isinstance(g0.target, ast.Tuple) and len(g0.target.elts) == 2 and all(isinstance(x, ast.Name) for x in g0.target.elts) and
+                        call_name(g0.iter) == 'enumerate' and len(g0.iter.args) == 1 and is_name(ge.elt, g0.target.elts[0].id) and len(g0.ifs) == 1):
+                    continue
+                t_ = g0.ifs[0]
+                if not (isinstance(t_, ast.Compare) and len(t_.ops) == 1 and isinstance(t_.ops[0], ast.NotIn) and is_name(t_.left, g0.target.elts[1].id)):
+                    continue
+                seq_ = _cn_s(g0.iter.args[0], al_s)
+                dflt_ = _cn_s(c_.args[1], al_s)
+                inner_seq = seq_[len('reversed('):-1] if seq_.startswith('reversed(') else seq_
+                if dflt_ != 'len(%s)' % inner_seq:
+                    continue
+                sign, ok_wrap = 1, True
+                for p_ in _parents(c_):
+                    if p_ is n:
+                        break
+                    if isinstance(p_, ast.UnaryOp) and isinstance(p_.op, ast.USub):
+                        sign = -sign
+                    elif isinstance(p_, ast.BoolOp) and isinstance(p_.op, ast.Or) and len(p_.values) == 2 and const_val(p_.values[1], 0) is None:
+                        pass
+                    elif isinstance(p_, ast.IfExp) and const_val(p_.orelse, 1) in (0, None) and not any(x is c_ for x in ast.walk(p_.test)):
+                        pass
+                    else:
+                        ok_wrap = False
+                if ok_wrap:
+                    facts.append((seq_, norm(t_.comparators[0]), n.targets[0].id, sign, n))
     seen = {'fwd': None, 'rev': None}
     for fct in facts:
         if fct[0] == txt:
@@ -529,6 +566,13 @@ def D6(m, R):
             continue
         ia = 'self.' + idx_attr[0]
         b = list(nx.body)
+        # a character kept in the iterator and handed out again: every value yielded must be a new slice of the string
+        kept = [r_ for r_ in nx.walk() if isinstance(r_, ast.Return) and r_.value is not None and re.match(r'^self\.\w+$', norm(r_.value)) and
+                any(isinstance(w_, ast.Attribute) and isinstance(w_.ctx, ast.Store) and norm(w_.value) == norm(r_.value) for w_ in nx.walk())]
+        if kept:
+            R.viol(nx, kept[0], '__next__ returns %s, an object the iterator keeps and rewrites in place (%s) on later calls: the values already handed out change under '
+                                'the caller -- list(s) holds the same object several times' % (norm(kept[0].value), norm(kept[0].value) + '.<field> = ...'), construct=cons)
+            continue
         # `if T: return X` then `raise StopIteration` is `if not T: raise StopIteration` then `return X`
         if len(b) >= 2 and isinstance(b[-1], ast.Raise) and isinstance(b[-2], ast.If) and not b[-2].orelse and len(b[-2].body) == 1 and isinstance(b[-2].body[0], ast.Return):
             from ..model import negate
